@@ -897,6 +897,24 @@ theorem chosenKey_perm {sites sites' : List Site} (r : Req) (hp : sites.Perm sit
     exact hp.any_eq
   simp only [h1, hfb, h2]
 
+theorem chosenKeyWith_perm {sites sites' : List Site} (fbs : List Bytes) (r : Req) (hp : sites.Perm sites') :
+    chosenKeyWith fbs sites r = chosenKeyWith fbs sites' r := by
+  unfold chosenKeyWith entries
+  have h1 : declared (entriesFrom sites 0) = declared (entriesFrom sites' 0) := by
+    funext h
+    unfold declared
+    rw [entriesFrom_any sites 0 (fun a _ => a == h), entriesFrom_any sites' 0 (fun a _ => a == h)]
+    exact hp.any_eq
+  have h2 : ∀ c k, (entriesFrom sites 0).any (fun e => e.host == c && e.path == k)
+      = (entriesFrom sites' 0).any (fun e => e.host == c && e.path == k) := by
+    intro c k
+    rw [entriesFrom_any sites 0 (fun a b => a == c && b == k), entriesFrom_any sites' 0 (fun a b => a == c && b == k)]
+    exact hp.any_eq
+  simp only [h1, h2]
+
+theorem chosenKey_eq_with (sites : List Site) (r : Req) :
+    chosenKey sites r = chosenKeyWith (fallbacks sites) sites r := rfl
+
 theorem fallbacks_perm_of_none {sites sites' : List Site} (hp : sites.Perm sites')
     (hn : sites.all (fun s => !s.fallback) = true) : fallbacks sites = fallbacks sites' := by
   have e1 : sites.filter (·.fallback) = [] := by
